@@ -373,7 +373,7 @@ func fnSort(ctx *cmdContext, args map[string]any) (output respValue, err error) 
 }
 
 func fnFlushAll(ctx *cmdContext, args map[string]any) (output respValue, err error) {
-	ctx.cs.dss.flushAll(ctx.dsc)
+	ctx.cs.dss.flushAll(ctx.cs.execDsc)
 	output.data = rstrOK
 	return
 }
